@@ -59,6 +59,9 @@ def run_case(case):
             o.before(info)
             return
         box["k"] += 1
+        if info["op"].startswith("ask") and info.get("result") is not None:
+            pts, imps, _ = info["result"]
+            box.setdefault("asks", []).append((o.pre, (list(pts), list(imps)), info["line"], info["discarded"]))
         if fails:
             return
         for cl, det in o.after(info):
@@ -77,11 +80,44 @@ def run_case(case):
         return {"lines": [], "impl": [], "meta": case, "fails": [], "stats": {}, "err": err}
     st = dict(stats)
     o = box.get("o")
+    if o and not fails and not err:
+        unobserved(case, o, box.get("asks", []), lnd_drive.LAST_CONCRETE, fails)
     if o:
         st["oracle_evaluations"] = o.checked
         for k, v in o.stats.items():
             st[k] = v
     return {"lines": lines, "impl": outs, "meta": case, "fails": fails[:3], "stats": st, "err": err}
+
+
+def unobserved(case, o, asks, concrete, fails):
+    """the same history with NOTHING observed between the operations (no loss(), no read of `tri`): every answer of ask must
+    be the observed run's answer; where it differs, the clauses of the property are evaluated on the unobserved answer with
+    the observed run's state before that ask (a different answer that meets the clauses is counted, not reported)"""
+    for k, res, l2 in lnd_drive.blind_replay(case, concrete):
+        if isinstance(res, Exception):
+            where, chain = lnd_drive.where_of(res)
+            if k < len(asks) or any(op[0] != "ask" for op in concrete):
+                fails.append(("exception_unobserved", f"the history without any loss()/tri read in between raised "
+                                                       f"{type(res).__name__}: {str(res)[:80]} at {where} (the observed run did not)",
+                              False))
+            return
+        if k >= len(asks):
+            return
+        pre, obs, line, disc = asks[k]
+        o.count("unobserved_asks_compared")
+        same = ([tuple(map(float, p)) for p in res[0]] == [tuple(map(float, p)) for p in obs[0]]
+                and [float(x) for x in res[1]] == [float(x) for x in obs[1]])
+        if same:
+            continue
+        o.pre = pre
+        bad = o.check_ask({"result": (res[0], res[1], None), "line": line}) if pre is not None else []
+        if bad:
+            cl, det = bad[0]
+            fails.append((cl + ":unobserved", f"ask no. {k + 1} ({line}) of the history WITHOUT any loss()/tri read in between "
+                                              f"returned {res[0]} / {res[1]} (observed run: {obs[0]} / {obs[1]}): {det}", disc))
+        else:
+            o.count("unobserved_answer_differs_but_meets_clauses")
+        return
 
 
 def gen_cases(rng, n, nops):
